@@ -25,7 +25,7 @@ use sudachi::prelude::MorphemeList;
 pub enum Provider {
     MeCab,
     Simple { left: i32, right: i32, cost: i32, pos: [&'static str; 6] },
-    /// regex `[a-z0-9]+`
+    /// regex `[a-z0-9ア漢😀]+`
     Regex { left: i32, right: i32, cost: i32, pos: [&'static str; 6], max_len: usize, relaxed: bool },
 }
 
@@ -104,7 +104,7 @@ pub fn make_oov_world_layers(name: &str, overrides: &[(&str, (u8, u8, u8))], pro
         plist.push(match p {
             Provider::MeCab => mecab_oov(true),
             Provider::Simple { left, right, cost, pos } => simple_oov(*left as i64, *right as i64, *cost as i64, *pos, true),
-            Provider::Regex { left, right, cost, pos, max_len, relaxed } => regex_oov("[a-z0-9]+", *left as i64, *right as i64, *cost as i64, *pos, *max_len, *relaxed),
+            Provider::Regex { left, right, cost, pos, max_len, relaxed } => regex_oov("[a-z0-9ア漢😀]+", *left as i64, *right as i64, *cost as i64, *pos, *max_len, *relaxed),
         });
     }
     let mut plugins = json!({ "oovProviderPlugin": plist });
@@ -300,7 +300,8 @@ impl OovSpace {
                         }
                         let lim = n.min(p + *max_len);
                         let mut e = p;
-                        while e < lim && (chars[e].is_ascii_lowercase() || chars[e].is_ascii_digit()) {
+                        // the configured expression is [a-z0-9ア漢😀]+ : one-, three- and four-byte characters
+                        while e < lim && (chars[e].is_ascii_lowercase() || chars[e].is_ascii_digit() || "ア漢😀".contains(chars[e])) {
                             e += 1;
                         }
                         if e == p || created.contains(&(e - p)) {
@@ -449,7 +450,7 @@ pub fn main(tier: Tier, replay: Option<String>) -> i32 {
     rep.rule = "states = all strings within the bound over the OOV trigger alphabet; each is analysed by the real tokenizer in every listed world (flag variants of one class at a time, provider orders); per reachable lattice position the set of OOV nodes (begin,end,ids,cost,POS) must equal the reference set; class runs, word starts and OOV morpheme fields are compared too; non-trivial = a character with more than one class (incl. NOOOVBOW flags) occurs".into();
     rep.assumptions = vec![
         "dictionary nodes at a position are taken from the observed lattice (their correctness is C04/C02's subject)".into(),
-        "the regex provider is exercised with the pattern [a-z0-9]+, whose leftmost-longest prefix match is computed by hand in the reference".into(),
+        "the regex provider is exercised with the pattern [a-z0-9ア漢😀]+, whose leftmost-longest prefix match is computed by hand in the reference".into(),
     ];
     let simple = Provider::Simple { left: 5, right: 5, cost: 3857, pos: P_SYM };
     let mut jobs: Vec<Box<dyn AnyJob>> = Vec::new();
